@@ -188,6 +188,11 @@ impl<'a> Decoder<'a> {
 
     // Decode `JEntries` for `Array` and `Object`
     fn decode_jentries(&mut self, length: usize) -> Result<VecDeque<JEntry>, Error> {
+        // every entry takes four bytes, a larger count cannot be valid; checking it
+        // first keeps a corrupted header from reserving gigabytes of memory.
+        if self.buf.len() / 4 < length {
+            return Err(Error::InvalidEOF);
+        }
         let mut jentries: VecDeque<JEntry> = VecDeque::with_capacity(length);
         for _ in 0..length {
             let encoded = self.buf.read_u32::<BigEndian>()?;
